@@ -21,12 +21,13 @@ pub struct SrvOpts {
     pub max_message_size: usize,
     pub max_chunk_count: usize,
     pub max_subscriptions: usize,
+    pub port: u16,
 }
 
 impl Default for SrvOpts {
     fn default() -> Self {
         let d = opcua::types::DecodingOptions::default();
-        SrvOpts { clients_can_modify_address_space: false, max_message_size: d.max_message_size, max_chunk_count: d.max_chunk_count, max_subscriptions: 100 }
+        SrvOpts { clients_can_modify_address_space: false, max_message_size: d.max_message_size, max_chunk_count: d.max_chunk_count, max_subscriptions: 100, port: 4855 }
     }
 }
 
@@ -53,7 +54,7 @@ pub fn config(opts: &SrvOpts) -> ServerConfig {
         .certificate_path("own/cert.der")
         .private_key_path("private/private.pem")
         .pki_dir(pki_dir())
-        .host_and_port("127.0.0.1", 4855)
+        .host_and_port("127.0.0.1", opts.port)
         .discovery_server_url(None)
         .trust_client_certs()
         .user_token("user_a", ServerUserToken::user_pass(USER_A.0, USER_A.1))
@@ -176,12 +177,32 @@ pub fn worker_server(clients_can_modify_address_space: bool) -> Arc<Server> {
     })
 }
 
+thread_local! {
+    static LOCK_RECORDING: std::cell::Cell<bool> = const { std::cell::Cell::new(false) };
+}
+
+/// Switches the lock tracing hook (C38). Fixture code that imitates server start-up switches it off around itself.
+pub fn lock_recording() -> bool {
+    LOCK_RECORDING.with(|r| r.get())
+}
+
+pub fn set_lock_recording(on: bool) {
+    LOCK_RECORDING.with(|r| r.set(on));
+    opcua::verif::locks::set_enabled(on);
+}
+
 /// Replaces the server's address space by a fresh standard one (≈ 20 ms).
 pub fn reset_address_space(server: &Server) {
-    let a = server.address_space();
-    let mut a = a.write();
-    *a = AddressSpace::new();
-    a.set_server_state(server.server_state());
+    // this is what Server::new does while nothing else runs; it is not part of the recorded histories
+    let was = LOCK_RECORDING.with(|r| r.get());
+    opcua::verif::locks::set_enabled(false);
+    {
+        let a = server.address_space();
+        let mut a = a.write();
+        *a = AddressSpace::new();
+        a.set_server_state(server.server_state());
+    }
+    opcua::verif::locks::set_enabled(was);
 }
 
 pub struct Conn {
